@@ -74,6 +74,31 @@ func getEmitModel(c *Ctx, m *vmModel) *emitModel {
 		if depth > 3 {
 			return nil, true
 		}
+		// the opcode chosen by a helper of the package: what its return statements give
+		if call, ok := unparen(e).(*ast.CallExpr); ok {
+			if fn := Callee(info, call); fn != nil && fn.Pkg() == p.Types {
+				if hd := c.Decl(fn); hd != nil && hd.Body != nil {
+					var out []string
+					unk, nret := false, 0
+					ast.Inspect(hd.Body, func(n ast.Node) bool {
+						if _, isLit := n.(*ast.FuncLit); isLit {
+							return false
+						}
+						if rs, ok := n.(*ast.ReturnStmt); ok && len(rs.Results) >= 1 {
+							nret++
+							o, u := resolve(rs.Results[0], hd, depth+1)
+							out = append(out, o...)
+							unk = unk || u
+						}
+						return true
+					})
+					if nret > 0 {
+						return out, unk
+					}
+				}
+			}
+			return nil, true
+		}
 		id, ok := unparen(e).(*ast.Ident)
 		if !ok {
 			return nil, true
